@@ -54,6 +54,12 @@ FIXED = [
  ("C05", "fix: whitespace control trims literal text only", "{{ a -}}{{ b }} dropped the leading whitespace of the VALUE of b, {{ b }}{{- a }} its trailing whitespace, {{ a -}}{% raw %}  r{% endraw %} the start of the raw body: trim flags applied to whatever was written next / last (also C13)"),
  ("C13", "fix: whitespace control reaches only the text next to the marker", "{{ a -}}{% assign x = 1 %} text stripped ' text' across the assign tag, and 'text {% assign x = 1 %}{{- a }}' stripped 'text ': markers reached literal text that is not adjacent to them"),
  ("C13", "fix: the end of a block body, clause or loop iteration also ends pending whitespace control", "in {% for x in a %} x {% assign y = 1 -%}{% endfor %} the pending trim leaked into the next iteration; {% endcase -%}{% endcase %} text reached past the outer end tag"),
+ ("C14", "fix: break and continue in an included template do not interrupt a loop of the including template", "[{% for i in (1..3) %}{{ i }}{% include 'brk.html' %}|{% endfor %}] with 'pre{% break %}post' in brk.html rendered '[1]' without an error, although rendering that file directly fails with 'break outside a loop'"),
+ ("C01", "fix: a template that includes itself ends in an error instead of exhausting the stack", "a file that includes itself (directly or through others) recursed until the goroutine stack overflowed: fatal error, process dead"),
+ ("C18", "fix: a pointer prints and converts as what it points to", "{{ p }} with p a *time.Time printed Go's default time format (the pointer branch of writeObject passed a reflect.Value on), p | date failed, a nil pointer inside an array printed '<invalid reflect.Value>'"),
+ ("C15", "fix: nil pointers among array elements are nil, and a nil separator is not the text <nil>", "compact kept typed nil pointers and join printed them as '<nil>'; {{ a | join: nothing }} joined with the text '<nil>'"),
+ ("C17", "fix: the strings \"nan\", \"inf\" and \"infinity\" are not numbers", "{{ \"nan\" | ceil }} printed -9223372036854775808, {{ \"inf\" | plus: 1 }} printed +Inf instead of reporting a string that does not spell a number"),
+ ("C18", "fix: an ordered map's own size key wins also when it is bound to nil", "yaml.MapSlice{{\"size\", nil}}.size gave 1 where a map with the same entry gives nil (also C08)"),
 ]
 KNOWN = [
  # (property, key, what)
